@@ -255,7 +255,7 @@ def scen_nested_failure(rng):
     steps = [_build(), _build()]
     tail = rng.choice(['clean', 'mut', 'fail', 'empty'])
     if tail == 'mut':
-        steps += [['mut', rng.choice(['delete', 'touch', 'write', 'rmtree']), rng.choice([y, x, d1]), 'm1', 6000], _build()]
+        steps += [['mut', rng.choice(['delete', 'touch', 'write', 'rmtree']), rng.choice([y, x, d1]), 'm1', 6000 + rng.randint(1, 99)], _build()]
     elif tail == 'fail':
         steps += [_build(root=4), _build()]
     steps += [['clean', 'n']] if rng.random() < 0.6 else []
@@ -382,10 +382,11 @@ def scen_reads(rng, modes=None, samemeta=False):
     steps = [_build()]
     kinds = ['write', 'touch', 'delete'] + (['samemeta', 'samemeta', 'touch'] if samemeta else [])
     used_samemeta = False
-    for _ in range(rng.randint(1, 3)):
+    for i in range(rng.randint(1, 3)):
         k = rng.choice(kinds)
         used_samemeta = used_samemeta or k == 'samemeta'
-        steps.append(['mut', k, rng.choice([inp, out]), 'm%d' % rng.randint(0, 9), 7000 + rng.randint(0, 99)])
+        # every external write/touch gets a fresh modification time: only `samemeta` keeps one
+        steps.append(['mut', k, rng.choice([inp, out]), 'm%d' % rng.randint(0, 9), 7000 + 10 * i + rng.randint(0, 9)])
         steps.append(_build(root=rng.choice([0, 0, 0, 4])))
     steps.append(_build())
     c = {'tree': tree, 'funcs': funcs, 'steps': steps}
